@@ -235,6 +235,84 @@ def listifyStr (v : Str) : Res (List Str) :=
   let parts := splitOn '\n' v
   .ok (if v.getLast? = some '\n' then parts.dropLast else parts)
 
+/-! ### `main_with_args`: all languages, search path, sorted suffixes -/
+
+/-- `splicers`: language key -> dictionary, in insertion order. -/
+abbrev Splicers := List (Str × Dict)
+
+def initSplicers : Splicers :=
+  [("c".toList, []), ("f".toList, []), ("py".toList, []), ("lua".toList, [])]
+
+def getLang (s : Splicers) (k : Str) : Dict := (s.lookup k).getD []
+
+/-- `splicers[k] = d` / the effect of mutating `splicers.setdefault(k, {})` in place -/
+def setLang (s : Splicers) (k : Str) (d : Dict) : Splicers :=
+  match s.lookup k with
+  | some _ => s.map (fun e => if e.1 = k then (k, d) else e)
+  | none => s ++ [(k, d)]
+
+/-- splicer files on the command line, in order, each by its extension
+    (`get_splicer_based_on_suffix`; unknown extensions are ignored) -/
+def readCmd : Splicers → List (Str × List Str) → Res Splicers
+  | s, [] => .ok s
+  | s, (ext, lines) :: rest =>
+    match langOfExt ext with
+    | none => readCmd s rest
+    | some l =>
+      match getSplicers lines (getLang s l) with
+      | .crash e => .crash e
+      | .ok d => readCmd (setLang s l d) rest
+
+/-- `for pth in search_path: if os.path.isfile(join(pth, name)): break` -/
+def findFile (dirs : List (List (Str × List Str))) (name : Str) : Option (List Str) :=
+  dirs.findSome? (fun d => d.lookup name)
+
+def readNames (dirs : List (List (Str × List Str))) : Dict → List Str → Res Dict
+  | d, [] => .ok d
+  | d, n :: ns =>
+    match findFile dirs n with
+    | none => .crash "RuntimeError notfound"
+    | some lines =>
+      match getSplicers lines d with
+      | .crash e => .crash e
+      | .ok d' => readNames dirs d' ns
+
+/-- Python `<` on `str` (code points, lexicographic) -/
+def strLt : Str → Str → Bool
+  | [], [] => false
+  | [], _ :: _ => true
+  | _ :: _, [] => false
+  | a :: as, b :: bs => if a.toNat < b.toNat then true else if b.toNat < a.toNat then false else strLt as bs
+
+def insertKey (e : Str × List Str) : List (Str × List Str) → List (Str × List Str)
+  | [] => [e]
+  | x :: xs => if strLt e.1 x.1 then e :: x :: xs else x :: insertKey e xs
+
+/-- `sorted(allinput["splicer"].keys())` (keys of a mapping are distinct) -/
+def sortKeys (l : List (Str × List Str)) : List (Str × List Str) := l.foldr insertKey []
+
+/-- the YAML `splicer:` section: suffixes in sorted order, `setdefault`, names through the search path -/
+def readYaml (dirs : List (List (Str × List Str))) : Splicers → List (Str × List Str) → Res Splicers
+  | s, [] => .ok s
+  | s, (suffix, names) :: rest =>
+    match readNames dirs (getLang s suffix) names with
+    | .crash e => .crash e
+    | .ok d => readYaml dirs (setLang s suffix d) rest
+
+/-- `add_splicer_code(splicers, splicer_code)` at the language level (mappings only) -/
+def mergeAll (s : Splicers) (code : List (Str × Dict)) : Splicers :=
+  code.foldl (fun acc e => setLang acc e.1 (mergeCode (getLang acc e.1) e.2)) s
+
+/-- What `main_with_args` hands to the four wrappers. -/
+def collectMain (cmd : List (Str × List Str)) (dirs : List (List (Str × List Str)))
+    (yaml : List (Str × List Str)) (code : List (Str × Dict)) : Res Splicers :=
+  match readCmd initSplicers cmd with
+  | .crash e => .crash e
+  | .ok s1 =>
+    match readYaml dirs s1 (sortKeys yaml) with
+    | .crash e => .crash e
+    | .ok s2 => .ok (mergeAll s2 code)
+
 /-! ### the splicer stack of a wrapper -/
 
 /-- `self.splicers` with `self.splicer_names`; `self.splicer_stack[k]` is the
@@ -271,15 +349,30 @@ def beginMarker (comment : Str) (names : Path) (name : Str) : Str :=
 def endMarker (comment : Str) (names : Path) (name : Str) : Str :=
   comment ++ " splicer end ".toList ++ splicerPath names ++ name
 
+/-- `WrapperMixin._literal_lines`, one line: user code that `write_lines` would
+    read as a directive (first character `@ ^ + -`, or last character `+`) is
+    marked literal with `@`; `#` lines and everything else are left alone.
+    (Added by a `fix:` commit in /repo; before it user lines were appended raw.) -/
+def protect (l : Str) : Str :=
+  match l with
+  | [] => []
+  | c :: _ =>
+    if c ≠ '#' ∧ (c = '@' ∨ c = '^' ∨ c = '+' ∨ c = '-' ∨ l.getLast? = some '+') then '@' :: l else l
+
+def protectItem : Item → Item
+  | .str s => .str (protect s)
+  | .delta d => .delta d
+
 /-- The body `_create_splicer` selects: force, else the user's splicer, else the
-    default; with the `added_code` flag. -/
+    default; with the `added_code` flag.  Force and user lines are protected,
+    the generated default is not. -/
 def selectBody (s : Stack) (name : Str) (dflt force : Option (List Item)) : Res (List Item × Bool) :=
   let useDefault : Res (List Item × Bool) :=
     match dflt with
     | some b => .ok (b, true)
     | none => .ok ([], false)
   match force with
-  | some f => .ok (f, true)
+  | some f => .ok (f.map protectItem, true)
   | none =>
     match objAt s.d s.names with
     | some (.leaf lines) =>
@@ -287,8 +380,8 @@ def selectBody (s : Stack) (name : Str) (dflt force : Option (List Item)) : Res 
       if name ∈ lines then .crash "TypeError" else useDefault
     | _ =>
       match s.d.lookup (s.names ++ [name]) with
-      | some (.leaf b) => .ok (b.map Item.str, true)
-      | some .dict => .ok ((children s.d (s.names ++ [name])).map Item.str, true)  -- out.extend(<dict>)
+      | some (.leaf b) => .ok (b.map (fun l => Item.str (protect l)), true)
+      | some .dict => .ok ((children s.d (s.names ++ [name])).map (fun l => Item.str (protect l)), true)  -- out.extend(<dict>)
       | none => useDefault
 
 /-- `_create_splicer(name, out, default, force)`: what is appended to `out`
